@@ -28,3 +28,11 @@ package lib
 //@   call[car.NewBlockReader#0] assert scans_the_same_file [C05]: true
 //@   call[os.Open#0] assert opens_the_same_file [C05]: arg0 == file
 //@   call[car.OpenReader#0] assert opens_the_given_file [C05]: arg0 == file
+
+//@ func InspectCar
+//@   let stats, ierr := call[Reader.Inspect#0]
+//@   call[car.NewReader#0] assert inspects_the_given_stream [C13]: ref(arg0) == ref(inStream)
+//@   call[Reader.Inspect#0] assert validates_as_requested [C13]: arg1 == verifyHashes
+//@   call[Characteristics.WriteTo#0] assert reports_the_characteristics_as_the_library_serializes_them [C13]: arg0.Hi == stats.Header.Characteristics.Hi && arg0.Lo == stats.Header.Characteristics.Lo
+//@   check the_report_repeats_the_statistics [C13]: err == nil ==> (stats.Version <= 2 ==> result0.Version == stats.Version) && result0.RootsPresent == stats.RootsPresent && result0.BlockCount == stats.BlockCount && result0.BlkLength.Min == stats.MinBlockLength && result0.BlkLength.Mean == stats.AvgBlockLength && result0.BlkLength.Max == stats.MaxBlockLength && result0.CidLength.Min == stats.MinCidLength && result0.CidLength.Mean == stats.AvgCidLength && result0.CidLength.Max == stats.MaxCidLength
+//@   check the_report_repeats_the_v2_layout [C13]: err == nil && stats.Version == 2 ==> result0.DataOffset == stats.Header.DataOffset && result0.DataLength == stats.Header.DataSize && result0.IndexOffset == stats.Header.IndexOffset
